@@ -19,6 +19,7 @@ import zlib
 from harness.core import VERIF, Result
 from harness.lib import wire_common as W
 from harness.lib import wire_reqs as Q
+from harness.lib import xl_c04
 from harness.lib.wire_common import vr
 
 COMPONENTS = ["wire"]
@@ -27,6 +28,7 @@ TRUSTED = [
     "Afkak.Wire.Crc.crc32 (table-driven CRC-32 used to RUN the model) is compared with zlib.crc32 on every run; the theorems hold for any checksum function",
     "CPython struct / bytes slicing / dict ordering as modelled in Afkak/Wire/Primitives.lean; Python str is represented by its UTF-8 bytes",
     "gzip is an external: the real gzip_encode/gzip_decode answers are recorded and handed to the model",
+    "cross-layer stage: the simulated cluster (harness/sim/cluster.py) parses every received frame strictly with refcodec under the header's version; its request log is the ground truth of what the brokers received and answered",
 ]
 ASSUMPTIONS = [
     "int arguments are Python ints, text arguments are str or None, byte arguments are bytes or None (no other Python types are generated)",
@@ -750,11 +752,30 @@ def merge(res, r):
         res.sample(s)
 
 
+def xl_corpus(ctx, res):
+    """stored cross-layer scenarios (corpus/wire/*.json, key "c04_xl") run on every check"""
+    import collections
+
+    from harness.lib import xl_run
+
+    judged, hist = [], collections.Counter()
+    if os.path.isdir(CORPUS_DIR):
+        for fn in sorted(os.listdir(CORPUS_DIR)):
+            if fn.endswith(".json"):
+                for script in json.load(open(os.path.join(CORPUS_DIR, fn))).get("c04_xl", []):
+                    judged.append(xl_c04.judge(xl_run.run_script(script), hist))
+                    res.evaluations += 1
+                    res.count("xl:corpus-scenarios")
+    xl_c04.evaluate(ctx, res, judged)
+
+
 def run(ctx, res):
     res.rule = ("type-directed arguments for every encoder (boundary and out-of-range ints; None / empty / ASCII / non-ASCII / 32767- and 32768-byte strings; "
                 "None / empty / small / large bytes; 0..4 topics x 0..5 partitions x 0..20 messages with interleaved and duplicate (topic, partition) keys; both magics; "
                 "codecs none/gzip; version tables sorted/permuted/short/with error code/unanswered). non-trivial = a request encoder emitted a frame "
-                "(then the grammar monitor ran on it), or a message-set / create_message_set / producer-flow / version-selection scenario. distinct = by content hash.")
+                "(then the grammar monitor ran on it), or a message-set / create_message_set / producer-flow / version-selection scenario, or a cross-layer run "
+                "(real Producer + KafkaClient + version discovery over the simulated cluster under transport faults, unanswered ApiVersions windows, hung / "
+                "pre-0.10 / erroring brokers) in which a broker received a Produce or Fetch frame. distinct = by content hash.")
     run_scenarios(ctx, res, corpus())
     if ctx.tier == "thorough":
         import multiprocessing as mp
@@ -764,6 +785,8 @@ def run(ctx, res):
                 merge(res, r)
     else:
         run_scenarios(ctx, res, generate(ctx.rng, QUICK))
+    xl_corpus(ctx, res)
+    xl_c04.stage(ctx, res, ctx.scale(1500, 24000))
     shrink_all(ctx, res)
     h = res.hist
     tot = lambda pre, v: sum(n for k, n in h.items() if k.startswith("verdict:" + pre) and k.endswith(":" + v))  # noqa: E731
@@ -858,6 +881,8 @@ def search(ctx, res, broken):
         scs = extra + scs
     run_scenarios(ctx, r2, scs)
     shrink_all(ctx, r2)
+    if not r2.monitor_failures:
+        xl_c04.stage(ctx, r2, ctx.scale(3000, 24000))
     return r2.monitor_failures[:3]
 
 
@@ -871,6 +896,10 @@ def replay(ctx, data):
         print("replay: no scenario in the file (a broken proof is replayed by running ./check C04)")
         return 0
     print("replay scenario:", json.dumps(sc)[:3000])
+    if sc.get("xl") == "c04":
+        rc = xl_c04.replay(ctx, sc)
+        print("VIOLATION property=C04 replay=(this file)" if rc else "scenario passes on the current tree")
+        return rc
     r = Result()
     sink = Sink()
     sc = dict(sc)
